@@ -130,7 +130,7 @@ pub fn finish(ctx: &Ctx) -> i32 {
     crate::engine::finish(
         ctx,
         Finish {
-            rule: "complete enumeration: all 787 core opcodes x 12 predicate functions (13th clause: the Builder's block-ending behaviour, one call per block-level Builder method with a block open). Oracle: hand-written three-valued reference lists typed from the specification's instruction classes (must-true / must-false / don't-care for vendor opcodes outside the documented classes); derived predicates equal the documented unions; base classes pairwise disjoint; a Builder method leaves no block selected iff is_block_terminator(emitted opcode). non-trivial = opcode belonging to one of the base classes / Builder method call with a block open; distinct = opcode name / method name.",
+            rule: "complete enumeration: all 787 core opcodes x 12 predicate functions (13th clause: the Builder's block-ending behaviour, one call per block-level Builder method with a block open). Oracle: hand-written three-valued reference lists typed from the specification's instruction classes (must-true / must-false / don't-care for vendor opcodes outside the documented classes); derived predicates equal the documented unions; base classes pairwise disjoint; a Builder method leaves no block selected iff is_block_terminator(emitted opcode). non-trivial = opcode belonging to one of the base classes / Builder method call with a block open; distinct = opcode name / method name. Added in rounds 18-19: the Builder sweep in 8 builder states (pinned versions, aliased same-typed arguments) plus one per vocabulary preload code; the opcode actually appended is judged.",
             assumptions: vec!["the reference lists in refclass.rs were typed from the specification and from the grammar's instruction classes as materialised in the Builder's generated files (Type-Declaration, Constant-Creation, Annotation, Debug)".into()],
             trusted_base: vec!["refclass.rs".into()],
         },
